@@ -31,7 +31,7 @@ ASSUMPTIONS = ['values are built through the public constructors of pdu.py/userd
                'fixed-length sub-items keep their standard item_length (4)']
 REQUIRED = ['oracle.roundtrip', 'oracle.reencode', 'oracle.item-stream']
 
-N_RANDOM = {'quick': 4000, 'thorough': 200000}
+N_RANDOM = {'quick': 4000, 'thorough': 1500000}
 SHARDS = {'quick': 8, 'thorough': 16}
 
 
